@@ -43,6 +43,13 @@ def run(ctx):
     reqs, expect = [], []
     for k in range(ctx.budget(30, 500)):
         net = netgen.random_net(rng, dcline=False)
+        for i_ in net.trafo.index:
+            # ideal phase shifters defined by tap_step_percent (angle = 2 asin(step / 200) per step) instead of tap_step_degree
+            if net.trafo.at[i_, "tap_changer_type"] == "Ideal" and rng.random() < 0.6:
+                net.trafo.at[i_, "tap_step_percent"] = rng.choice([2.0, 3.5])
+                net.trafo.at[i_, "tap_step_degree"] = rng.choice([0.0, float("nan")])
+                if net.trafo.at[i_, "tap_pos"] == net.trafo.at[i_, "tap_neutral"]:
+                    net.trafo.at[i_, "tap_pos"] = net.trafo.at[i_, "tap_neutral"] + rng.choice([-2, 1, 3])
         if not len(net.impedance) and rng.random() < 0.6:
             mvb = [int(b) for b in net.bus.index[net.bus.vn_kv == 20.]]
             if len(mvb) >= 2:
